@@ -136,6 +136,25 @@ func c13Variants(c *Ctx, iv interface{}, t reflect.Type) {
 			})
 			ok = cip == "" && cierr == nil && bytes.Equal(c13Strip.ReplaceAll(ci, nil), gi)
 			c.Oracle("colorize-indent", in, fmt.Sprintf("%s err=%s panic=%s", trunc(ci), errT(cierr), cip), trunc(gi)+" err=<nil>", ok, colorCls)
+			// the Debug option with indentation (the previous call left another prefix / indent behind)
+			di, dierr, dip := safeMarshal(func() ([]byte, error) {
+				return json.MarshalIndentWithOption(iv, pi[0], pi[1], json.Debug(), json.DebugWith(io.Discard))
+			})
+			ok = dip == "" && dierr == nil && bytes.Equal(di, gi)
+			c.Oracle("debug-indent", in+fmt.Sprintf(" prefix=%q indent=%q", pi[0], pi[1]), fmt.Sprintf("%s err=%s panic=%s", trunc(di), errT(dierr), dip), trunc(gi)+" err=<nil>", ok, cls)
+			ei, eierr, eip := safeMarshal(func() ([]byte, error) {
+				var b bytes.Buffer
+				e := json.NewEncoder(&b)
+				e.SetIndent(pi[0], pi[1])
+				err := e.EncodeWithOption(iv, json.Debug(), json.DebugWith(io.Discard))
+				return bytes.TrimSuffix(b.Bytes(), []byte("\n")), err
+			})
+			wantE := gi
+			if pi[0] == "" && pi[1] == "" {
+				wantE = base // SetIndent("", "") switches indentation off, as in encoding/json
+			}
+			ok = eip == "" && eierr == nil && bytes.Equal(ei, wantE)
+			c.Oracle("debug-indent-encoder", in+fmt.Sprintf(" prefix=%q indent=%q", pi[0], pi[1]), fmt.Sprintf("%s err=%s panic=%s", trunc(ei), errT(eierr), eip), trunc(gi)+" err=<nil>", ok, cls)
 		}
 		// UnorderedMap: the same document up to member order
 		u, uerr, up := safeMarshal(func() ([]byte, error) { return json.MarshalWithOption(iv, json.UnorderedMap()) })
